@@ -9,10 +9,19 @@
 #include <frg/hash.hpp>
 #include "vp_track.hpp"
 #define NI __attribute__((noinline))
+#if C14_H64
+// third unit (-DC14_H64=1): the functor's result type is WIDER than 32 bits (uint64_t with arbitrary high bits); the library truncates the
+// result to unsigned int before every "% capacity", so the high bits must never influence a bucket.  Same type name, so the harness is shared.
+extern "C" uint64_t vp_hash64(uint64_t key);
+struct vp_hash_functor {
+	uint64_t operator()(const uint64_t &k) const { return vp_hash64(k); }
+};
+#else
 extern "C" uint32_t vp_hash(uint64_t key);
 struct vp_hash_functor {
 	unsigned int operator()(const uint64_t &k) const { return vp_hash(k); }
 };
+#endif
 static inline int val_of(const int &v) { return v; }
 static inline int val_of(const tracked &v) { return v.val; }
 
